@@ -199,7 +199,7 @@ def run(ctx, col: Collector):
         for modname, var, g in offenders:
             col.bad('C11-copy', f'{modname.split(".")[-1]}.{g.var or var}:instance-action',
                     f'the module-level grammar element `{g.var or var}` ({g.file}:{g.line}) carries the instance-bound action '
-                    f'{[a.name for a in g.actions if a.kind == "method"]}: _set_syntax attached it without copying the shared element, so every parse adds '
+                    f'{[a.name for a in g.actions if a.kind == "method"]}: _set_syntax attached it to the shared element itself (no pyparsing .copy(), or a shallow copy.copy() that keeps the original\'s action list), so every parse adds '
                     f'another parser (and its database) to the shared grammar', node=_N(g), file=g.file)
         col.check(not offenders, 'C11-copy', 'module-level-grammar:no-instance-actions',
                   f'none of the {len(seen)} grammar nodes reachable from module-level variables carries an instance-bound action',
